@@ -382,4 +382,133 @@ def readPartial (o : Out) (xy : Nat × Nat) (items : List Item) : Except Err (Li
   if xs.isEmpty || ys.isEmpty then pure []
   else pure (vs.flatMap fun v => ss.map fun s => o.pdata.getD (s + ns * v) 0)
 
+/-! ### the call sites of `get_sorted_slice_indices` (parrec.py 632, 829, 1072, 1226)
+
+`load` above assembles every observable from ONE `kept` list.  The code does not: the index list is
+recomputed by `PARRECArrayProxy.__init__` (on the header object built by `from_fileobj`), inside
+`get_data_scaling` (once for the proxy, on that same header, and again whenever the user asks the
+header of the image), inside `get_volume_labels` and `get_bvals_bvecs`; and the header the user sees
+(`img.header`) is not the object the proxy saw but the `copy()` made by `SpatialImage.__init__`
+(`header_class.from_header(header)`), i.e. a NEW `PARRECHeader(deepcopy(general_info),
+image_defs.copy(), self.permit_truncated, self.strict_sort)` whose `__init__` runs the truncation
+checks and the shape calculation again.  `loadSites` models exactly this structure: every site gathers
+COLUMNS of `image_defs` (or the REC slabs) BY POSITION with its own index list.
+`Lemmas/C20_Sites.loadSites_refines_load` proves that the result is the one of `load`. -/
+
+/-- `arr[indices]` (NumPy integer-array indexing along the record axis): IndexError beyond the end -/
+def gather {α : Type} (l : List α) : List Nat → Except Err (List α)
+  | [] => .ok []
+  | i :: is =>
+    match l[i]? with
+    | some a => (gather l is).map (a :: ·)
+    | none => .error .index
+
+/-- a `PARRECHeader` object: what `__init__` (720-757) stores — copies of general_info / image_defs,
+    the two flags, and (through `SpatialHeader.__init__`) the data shape computed once -/
+structure Hdr where
+  cfg : Cfg
+  recs : List Rec
+  permit : Bool
+  strict : Bool
+  ns : Nat            -- `_get_n_slices()` at construction
+  nv : Nat            -- `_get_n_vols()` at construction
+deriving DecidableEq, Repr
+
+/-- `PARRECHeader.__init__`: `_truncation_checks`, then `_calc_data_shape` -/
+def Hdr.init (c : Cfg) (recs : List Rec) (permit strict : Bool) : Except Err Hdr := do
+  truncationChecks c permit recs
+  let nv ← nVols c recs
+  pure ⟨c, recs, permit, strict, nSlices recs, nv⟩
+
+/-- `PARRECHeader.copy` (771-777): a new header from the stored fields and BOTH flags -/
+def Hdr.copy (h : Hdr) : Except Err Hdr := Hdr.init h.cfg h.recs h.permit h.strict
+
+/-- a copy that forgets `strict_sort` (the constructor default is False) — only used by the witness
+    `Props.copy_must_keep_strict_witness` showing that the agreement of the call sites is not true by
+    construction -/
+def Hdr.copyForgetStrict (h : Hdr) : Except Err Hdr := Hdr.init h.cfg h.recs h.permit false
+
+/-- `np.prod(self.get_data_shape()[2:])` -/
+def Hdr.nUsed (h : Hdr) : Nat := nUsedOf h.ns h.nv
+
+/-- `get_sorted_slice_indices` (1180-1210) of THIS header object: bare positions -/
+def Hdr.sortedIndices (h : Hdr) (orig : Bool) : Except Err (List Nat) := do
+  let order ← sortOrder h.cfg h.strict orig h.recs
+  pure ((order.map (·.1)).take h.nUsed)
+
+/-- `get_data_scaling(method)` (1030-1077): the factor columns are computed for ALL records, then
+    `slope[reorder]`, `intercept[reorder]`, then reshaped to `(1, 1) + shape[2:]` (ValueError when the
+    number of entries is not `prod(shape[2:])`) -/
+def Hdr.dataScaling (h : Hdr) (m : Scaling) (orig : Bool) : Except Err (List Rat × List Rat) := do
+  let slope := h.recs.map (slopeOf m)
+  let inter := h.recs.map (interOf m)
+  let reorder ← h.sortedIndices orig
+  let s ← gather slope reorder
+  let i ← gather inter reorder
+  if s.length ≠ h.nUsed then throw .value
+  pure (s, i)
+
+/-- `sort_info[key] = image_defs[key][sorted_indices][sl1_indices]` for every key of the list -/
+def labelColumns (recs : List Rec) (idx : List Nat) (sl : List Int) :
+    List (String × (Rec → Int)) → Except Err (List (String × List Int))
+  | [] => .ok []
+  | kf :: rest => do
+    let vals ← gather (recs.map kf.2) idx
+    let tl ← labelColumns recs idx sl rest
+    pure ((kf.1, ((vals.zip sl).filter (·.2 == 1)).map (·.1)) :: tl)
+
+/-- `get_volume_labels` (1212-1262): `sl1_indices = image_defs['slice number'][sorted_indices] == 1`
+    is a mask over the GATHERED slice-number column; every varying key column is gathered by the same
+    index list and masked -/
+def Hdr.volumeLabels (h : Hdr) (orig : Bool) : Except Err (List (String × List Int)) := do
+  let idx ← h.sortedIndices orig
+  let keys := (dynamicKeys h.cfg).filter (fun kf => distinctCount (h.recs.map kf.2) > 1)
+  let sl ← gather (h.recs.map (·.slice)) idx
+  labelColumns h.recs idx sl keys
+
+/-- what `PARRECArrayProxy.__init__` (601-634) copies out of the header it is given -/
+structure Proxy where
+  shape : List Nat        -- `header.get_data_shape()[2:]`
+  nUsed : Nat             -- its product
+  idx : List Nat          -- `header.get_sorted_slice_indices()`
+  slopes : List Rat       -- `header.get_data_scaling(scaling)`, F order
+  inters : List Rat
+
+def Proxy.init (h : Hdr) (m : Scaling) (orig : Bool) : Except Err Proxy := do
+  let idx ← h.sortedIndices orig
+  let sc ← h.dataScaling m orig
+  pure ⟨shapeTail h.ns h.nv, h.nUsed, idx, sc.1, sc.2⟩
+
+/-- `_get_unscaled(())` (649-655) on a REC file whose slab `i` is `slabs[i]`:
+    `rec_data[..., indices].reshape(shape, order='F')` -/
+def Proxy.unscaled (p : Proxy) (slabs : List Nat) : Except Err (List Nat) := do
+  let g ← gather slabs p.idx
+  if g.length ≠ p.nUsed then throw .value
+  pure g
+
+structure SitesOut where
+  out : Out
+  pslopes : List Rat      -- the proxy's own scaling arrays (`dataobj._slice_scaling`), F order
+  pinters : List Rat
+
+/-- `PARRECImage.from_file_map` (1304-1311) + `SpatialImage.__init__`, call site by call site:
+    shape, data, sliced reads and the scaling applied to the data come from the PROXY (built on the
+    header returned by `from_fileobj`); `idx`, `slopes`, `inters`, `labels` are what the user gets from
+    `img.header` (the copy). -/
+def loadSites (c : Cfg) (permit strict : Bool) (m : Scaling) (orig : Bool) (recs : List Rec) :
+    Except Err SitesOut := do
+  let hdr ← Hdr.init c recs permit strict
+  let px ← Proxy.init hdr m orig
+  let ih ← hdr.copy
+  let slabs := recs.map (·.payload)
+  let data ← px.unscaled slabs
+  let idx ← ih.sortedIndices orig
+  let sc ← ih.dataScaling m orig
+  let labels ← ih.volumeLabels orig
+  let direct := isSequential px.idx
+  pure { out := { shape := px.shape, idx := idx, data := data, slopes := sc.1, inters := sc.2,
+                  labels := labels, pdata := if direct then slabs.take px.nUsed else data,
+                  direct := direct },
+         pslopes := px.slopes, pinters := px.inters }
+
 end Nb.C20
